@@ -476,7 +476,19 @@ func Inject(r *rand.Rand, p *Policy, defect string) bool {
 		conds := append([]Cond{}, nc.Conds...)
 		c := &conds[r.Intn(len(conds))]
 		if defect == "argument" {
-			c.Arg = []uint32{6, 7, 64, 1 << 31, 0xFFFFFFFF, 0x1FFFFFFE}[r.Intn(6)]
+			c.Arg = []uint32{6, 7, 64, 1 << 31, 0xFFFFFFFF, 0x1FFFFFFE, 0x20000000, 0x20000005}[r.Intn(8)]
+			if r.Intn(3) == 0 {
+				// the bad index inside a condition that holds for every value (one an optimiser might drop),
+				// in a list that has other conditions too
+				k := []Cond{{Op: "GreaterOrEqual", Val: 0}, {Op: "BitsNotSet", Val: 0}, {Op: "LessOrEqual", Val: ^uint64(0)}, {Op: "NotEqual", Val: 0}}[r.Intn(4)]
+				c.Op, c.Val = k.Op, k.Val
+				if len(conds) == 1 {
+					conds = append(conds, Cond{Arg: uint32(r.Intn(6)), Op: "Equal", Val: Operand(r)})
+					if r.Intn(2) == 0 {
+						conds[0], conds[1] = conds[1], conds[0]
+					}
+				}
+			}
 		} else {
 			c.Op = weirdOps[r.Intn(len(weirdOps))]
 		}
